@@ -124,6 +124,22 @@ add("C17", "Hypothesis-generated ensembles / inputs / data-set sizes vs float64 
     "N*d elements.",
     "DESIGN.md §5 C17")
 
+add("C19", "Model-based / differential testing: Hypothesis-generated op-list prefix -> pickle round trip -> generated continuation applied in lockstep to original and reloaded buffer; module round trips through pickle helper and Orbax checkpoints over 17 architectures",
+    "Every buffer class (uniform, LAP, PER, both subtrajectory buffers, multi-task over all of them) is driven by a generated prefix, pickled "
+    "and reloaded, then both copies receive the same generated continuation (adds, samples with the same generator seeds, priority updates); "
+    "results, generator state and stored data must stay byte-equal after every op. Modules of every architecture are saved with save_pickle "
+    "and with OrbaxCheckpointer / StandardLogger checkpoints and restored with orbax and restore_checkpoint: byte-equal state and outputs.",
+    "CPU only (move_to_device None/'cpu'); storage allocated after the save is compared on the filled region; parameters finite float32.",
+    "DESIGN.md §5 C19")
+add("C20", "Model-based testing: Hypothesis-generated start/stop/record op lists vs a list reference model for MemoryLogger / StandardLogger / LoggerList; generated non-decreasing step sequences vs the floor(step/I) crossing oracle with save replaced by a recorder; bounded real-save cases; atheris campaigns in the thorough tier",
+    "Logger op sequences with explicit / implicit episode and step arguments are compared with a list model (values, locations, counters, "
+    "identical records in every LoggerList member); checkpoint cadence of OrbaxCheckpointer (one checkpoint iff floor(step/I) grew) and "
+    "StandardLogger (every I-th recorded epoch) over generated step sequences with repeats, jumps over several intervals and exact "
+    "multiples; a bounded number of real saves whose listed paths must restore to the saved bytes.",
+    "Implicit wall-clock t only checked for finiteness; checkpoint frequencies are defined before a key's first record (as every caller does); "
+    "AIMLogger / StdoutLogger not exercised.",
+    "DESIGN.md §5 C20")
+
 NOT_APPLICABLE = {}
 
 
